@@ -79,12 +79,12 @@ impl RwLock {
     }
 
     pub(crate) fn try_acquire_read_lock(&self, location: Location) -> bool {
-        self.state.branch_action(Action::Read, location);
+        self.state.branch_nonblocking(Action::Read, location);
         self.post_acquire_read_lock()
     }
 
     pub(crate) fn try_acquire_write_lock(&self, location: Location) -> bool {
-        self.state.branch_action(Action::Write, location);
+        self.state.branch_nonblocking(Action::Write, location);
         self.post_acquire_write_lock()
     }
 
@@ -222,7 +222,7 @@ impl RwLock {
                     _ => continue,
                 };
 
-                if op.action() == Action::Write {
+                if op.action() == Action::Write && !op.is_nonblocking() {
                     let location = op.location();
                     th.set_blocked(location);
                 }
@@ -257,7 +257,7 @@ impl RwLock {
                 }
 
                 match th.operation.as_ref() {
-                    Some(op) if op.object() == self.state.erase() => {
+                    Some(op) if op.object() == self.state.erase() && !op.is_nonblocking() => {
                         let location = op.location();
                         th.set_blocked(location);
                     }
